@@ -76,6 +76,11 @@ func VerifHarness_C03_replay() {
 		verifAssume(H == 2)
 	}
 	isApp := make([]bool, H+1)
+	fwd := false
+	if H >= 1 && persist {
+		// one choice for the whole history (per-message choice doubles the paths per message for no new replay behaviour)
+		fwd = ndBool("forwarded-resend")
+	}
 	orig := make([]verifWire, H+1)
 	for i := 1; i <= H; i++ {
 		m := NewMessage()
@@ -104,6 +109,12 @@ func VerifHarness_C03_replay() {
 				}
 			}
 			m.Body.SetGroup(g)
+		}
+		if isApp[i] && fwd {
+			// the application marks the message as a resend of something older: it carries its own (stale)
+			// OrigSendingTime and PossResend when first transmitted
+			m.Header.SetString(tagOrigSendingTime, "20200102-03:04:05.678")
+			m.Header.SetBool(tagPossResend, true)
 		}
 		verifAssume(r.s.send(m) == nil)
 		ws := r.drain()
